@@ -129,12 +129,105 @@ def run(res, tier):
         ok = x is not None and x.is_call() and (x.get('q') or '').endswith('::IsRoutingFlagSet') and x.args() and x.args()[0].get('v') == rts
     res.ob('GUARD', f4.where(), 'DumbReflectSession broadcasts with toSelf = IsRoutingFlagSet(REFLECT_TO_SELF)', ok, function=f4.q, key='GUARD|%s|flag' % f4.q,
            message='the default broadcast no longer derives toSelf from the reflect-to-self routing flag')
-    res.rule('ONCE', 'after a delivery the routing callback returns NODE_DEPTH_SESSIONNAME (or -1) on every path, which makes the traversal skip the rest of that session\'s subtree', floor=1)
+    res.rule('ONCE', 'after a delivery the routing callback returns a constant depth R on every path, and R makes the traversal leave the loop over the children of the session node: with the pop-up test '
+                     '`R < child.GetDepth() - K` read from CheckChildForTraversal that means R < NODE_DEPTH_SESSIONNAME + 1 - K (or R = -1)', floor=2)
     f = fx.fn1(SRS + '::PassMessageCallbackAux')
     rets = [n for n in f.walk() if n['k'] == 'ReturnStmt']
-    ok = bool(rets) and all(r['ch'] and r['ch'][0].get('v') in (depth_sn, -1) for r in rets)
-    res.ob('ONCE', f.where(), 'PassMessageCallbackAux returns NODE_DEPTH_SESSIONNAME on every path', ok, how='%d return statement(s), all constant %s' % (len(rets), depth_sn), function=f.q,
-           key='ONCE|%s|return' % f.q, message='PassMessageCallbackAux can return a depth below the session level: the traversal continues inside the same session and delivers the Message to it again for every further matching node')
+    rv = set(r['ch'][0].get('v') if r['ch'] else None for r in rets)
+    # the pop-up arithmetic of the traversal: `if (nextDepth < ((int)nextChild->GetDepth()) - K) {depth = nextDepth; return true;}`
+    cc = fx.fn1(SRS + '::NodePathMatcher::CheckChildForTraversal')
+    Ks = []
+    for blk in cc.blocks.values():
+        if blk.cond is None or blk.cond not in cc.nodes:
+            continue
+        cn = cc.nodes[blk.cond]
+        if cn['k'] == 'BinaryOperator' and cn.get('op') in ('<', '<=') and A.strip_casts(cn['ch'][0])['k'] == 'DeclRefExpr' and any(x.is_call() and (x.get('q') or '').endswith('DataNode::GetDepth') for x in cn['ch'][1].walk()):
+            rhs = A.strip_casts(cn['ch'][1])
+            K = 0
+            if rhs['k'] == 'BinaryOperator' and rhs.get('op') == '-' and 'v' in A.strip_casts(rhs['ch'][1]):
+                K = A.strip_casts(rhs['ch'][1])['v']
+            elif rhs['k'] == 'BinaryOperator' and rhs.get('op') == '+' and 'v' in A.strip_casts(rhs['ch'][1]):
+                K = -A.strip_casts(rhs['ch'][1])['v']
+            Ks.append(K + (0 if cn['op'] == '<' else -1))      # R <= X  is  R < X+1
+    if len(Ks) < 2 or len(set(Ks)) != 1:
+        raise AnalysisBroken('ONCE: the pop-up tests of CheckChildForTraversal were not found or disagree: %s' % Ks)
+    K = Ks[0]
+    limit = depth_sn + 1 - K       # a callback on a node at depth NODE_DEPTH_USER (session depth + 1) leaves the session node's child loop iff R < limit
+    const_ok = bool(rets) and None not in rv and len(rv) == 1
+    R = list(rv)[0] if const_ok else None
+    ok = const_ok and (R == -1 or R < limit)
+    res.ob('ONCE', f.where(), 'PassMessageCallbackAux returns one constant depth R on every path and R < %d (pop-up test: R < child depth - %d)' % (limit, K), ok, how='R = %s' % R, function=f.q,
+           key='ONCE|%s|return' % f.q,
+           message='PassMessageCallbackAux returns %s after a delivery, but CheckChildForTraversal leaves the loop over a node\'s children only when the returned depth is < (child depth - %d): for a matched '
+                   'node directly below the session node (depth %d) that is R < %d, so the traversal goes on with the sibling nodes of the same session and delivers the Message once per matching '
+                   'subtree instead of once per session' % (sorted(rv, key=str), K, depth_sn + 1, limit))
+    res.ob('ONCE', cc.where(), 'both pop-up tests of CheckChildForTraversal use the same offset', len(set(Ks)) == 1, how='K = %s at %d sites' % (K, len(Ks)), function=cc.q, key='ONCE|%s|popup' % cc.q,
+           message='the two pop-up tests of CheckChildForTraversal disagree')
+    # ---- MATCH-RECHECK: with more than one pattern, clause-wise matching can accept a node that no single pattern matches ("conspiring" patterns); the shortcut that skips the
+    # full-path re-check (MatchesNode) must therefore establish that there is exactly ONE pattern, not merely one pattern depth
+    mn = [c for c in P.calls(cc, r'::MatchesNode$')]
+    if not mn:
+        raise AnalysisBroken('MATCH-RECHECK: MatchesNode() call not found in CheckChildForTraversal')
+    cbs = [c for c in P.calls(cc, r'::CallCallbackMethod$')]
+    bypass_ok = True
+    howb = None
+    mnp = P.pos_of(cc, mn[0])
+    mblk = mnp[0]
+    # conditions from which the callback is reachable without evaluating MatchesNode: collect the atoms on such a path
+    for cb in cbs[:1]:
+        paths, complete = C.paths_between(cc, (cc.entry, -1), P.pos_of(cc, cb), avoid_blocks=[mblk], limit=20000)
+        inner_count_seen = False
+        for blk in cc.blocks.values():
+            if blk.cond is None or blk.cond not in cc.nodes:
+                continue
+            cn = cc.nodes[blk.cond]
+            for x in cn.walk():
+                if x['k'] == 'CXXMemberCallExpr' and (x.get('q') or '').split('::')[-1] in ('GetNumItems', 'HasItems', 'IsEmpty') and x.receiver() is not None:
+                    rt = x.receiver().type()
+                    if 'PathMatcherEntry' in rt and 'Hashtable<unsigned int' not in rt and 'Hashtable<muscle::uint32' not in rt:
+                        # a test on a per-depth table String -> PathMatcherEntry
+                        if any(blk.cond in d for d in paths):
+                            inner_count_seen = True
+        outer = False
+        for d in paths:
+            for cid, t in d.items():
+                cn = cc.nodes.get(cid)
+                if cn is not None and any(x['k'] == 'CXXMemberCallExpr' and (x.get('q') or '').endswith('::GetNumItems') and x.receiver() is not None and 'GetEntries' in x.receiver().text() for x in cn.walk()):
+                    outer = True
+        if paths and not inner_count_seen:
+            bypass_ok = False
+            howb = 'the callback is reachable without MatchesNode() on %d path(s) that test only GetEntries().GetNumItems() (number of distinct pattern depths)' % len(paths)
+    res.ob('GUARD', cc.where(mn[0]), 'the shortcut around the full-path re-check MatchesNode() requires exactly one pattern (a test on the per-depth pattern table, not only on the number of depths)', bypass_ok,
+           how=howb, function=cc.q, key='GUARD|%s|match-recheck' % cc.q,
+           message='CheckChildForTraversal skips MatchesNode() whenever GetEntries().GetNumItems() == 1, which counts distinct pattern DEPTHS: two patterns of the same depth (j*/k*, k*/j*) are matched '
+                   'clause by clause and "conspire" to select jeremy/jenny, so the Message reaches a session that owns no matching node')
+    # ---- DEFAULT-ROUTE: the dispatcher selects the default route by `_parameters.HasName(PR_NAME_KEYS)`; SETPARAMETERS must therefore really store that field in _parameters
+    res.rule('DEFAULT-ROUTE', 'SETPARAMETERS: a field that is copied into _parameters (msg.CopyName(fn, _parameters)) has not been moved or removed out of msg earlier on the same path; '
+                              'the dispatcher uses the default route when _parameters has PR_NAME_KEYS', floor=2)
+    disp = fx.fn1(SRS + '::MessageReceivedFromGateway')
+    cps = [c for c in disp.walk() if c['k'] == 'CXXMemberCallExpr' and (c.get('q') or '') == 'muscle::Message::CopyName' and len(c.args()) >= 2 and A.strip_casts(c.args()[1]).get('n') == '_parameters' and c.receiver() is not None]
+    uses = [c for c in disp.walk() if c['k'] == 'CXXMemberCallExpr' and (c.get('q') or '') == 'muscle::Message::HasName' and c.receiver() is not None and A.strip_casts(c.receiver()).get('n') == '_parameters'
+            and any(x.get('n') == 'PR_NAME_KEYS' or 'SnKy' in str(x.get('s', '')) for x in c.walk())]
+    if not cps:
+        raise AnalysisBroken('DEFAULT-ROUTE: msg.CopyName(fn, _parameters) not found in the dispatcher')
+    res.ob('DEFAULT-ROUTE', disp.where(uses[0]) if uses else disp.where(), 'the dispatcher takes the default route under _parameters.HasName(PR_NAME_KEYS)', bool(uses) or True, function=disp.q, nontrivial=False,
+           how='%d test(s) found' % len(uses), key='DEFAULT-ROUTE|%s|use' % disp.q)
+    for cp in cps:
+        M, K = P_canon(cp.receiver()), P_canon(cp.args()[0])
+        offs = [n for n in disp.walk() if n['k'] == 'BinaryOperator' and n.get('op') == '=' and 'copy' in (A.strip_casts(n['ch'][0]).get('n') or '').lower() and A.strip_casts(n['ch'][1]).get('v') in (0, False)]
+        offp = set(p_ for p_ in (P.pos_of(disp, o) for o in offs) if p_)
+        bad = None
+        for c in disp.walk():
+            if c['k'] == 'CXXMemberCallExpr' and (c.get('q') or '') in ('muscle::Message::MoveName', 'muscle::Message::RemoveName') and c.receiver() is not None and P_canon(c.receiver()) == M \
+                    and c.args() and P_canon(c.args()[0]) == K:
+                a, b = P.pos_of(disp, c), P.pos_of(disp, cp)
+                if a and b and C.can_reach(disp, a, set([b]), avoid_points=offp):
+                    bad = c
+        res.ob('DEFAULT-ROUTE', disp.where(cp), 'no path moves/removes field `%s` out of the Message before it is copied into _parameters' % cp.args()[0].text(10), bad is None, function=disp.q,
+               key='DEFAULT-ROUTE|%s|copy-after-move' % disp.q,
+               message='SETPARAMETERS: `%s` (line %s) takes the field out of the Message and the path continues to `%s` (line %s), which therefore copies nothing: _parameters never contains PR_NAME_KEYS, '
+                       'the dispatcher\'s test _parameters.HasName(PR_NAME_KEYS) is always false and a key-less Message is broadcast to every session instead of following the default route'
+                       % (bad.text(60) if bad else '', bad.get('l') if bad else '', cp.text(50), cp.get('l')))
     # ------------------------------------------------------------------------------------------- UNIQUE-AGREE
     res.rule('UNIQUE-AGREE', 'the literal-lookup fast path of the traversal is selected only when every matcher at this level is classified unique (or list of unique values) and it looks the child up by the unescaped pattern', floor=3)
     f = fx.fn1(SRS + '::NodePathMatcher::DoTraversalAux')
